@@ -620,7 +620,7 @@ theorem C03_struct_parent_default_kept : ∀ (defs data : List (String × V)) (k
     Validate and Serialize panic whenever the field holds a (non-nil) value. -/
 theorem C04_struct_empty_unconvertible_panics (f : Field) (src : GoTy) (fv : SV) (hexp : f.exported = true)
     (hconv : convOK (elemTy f.ty src) src = false) (hnil : fv.isNilPtr = false)
-    (hni : (fieldValue src fv).isNilIface = false) : readField f src false true fv = .panic := by
+    (hni : (fieldValue f.ty src fv).isNilIface = false) : readField f src false true fv = .panic := by
   simp [readField, hnil, hexp, hni, emptyLike, hconv, Out.bind]
 
 /-! ### non-vacuity: a non-trivial well-formed, exactly typed instance, and the documented oddities -/
